@@ -202,6 +202,10 @@ def oracleC07 (o : Opts) (a b : Json) (d : Diff) (loo : List (Outcome Json)) : S
   -- (ii) what a hunk removes differs from what it adds
   if d.any (fun h => !h.merge && h.remove.length == h.add.length && equivList o h.remove h.add && !h.remove.isEmpty) then
     cls "a hunk removes exactly what it adds (no-op hunk)"
+  else if d.any (fun h => match h.path.getLast? with
+      | some .set | some .mset => h.remove.any (fun r => memEq o r h.add)
+      | _ => false) then
+    cls "a set/multiset hunk removes an element and adds an equivalent one"
   else if d.any (fun h => h.remove.isEmpty && (h.add.isEmpty || (!h.merge && h.add.all Json.isVoid))) then
     cls "a hunk neither removes nor adds anything"
   -- (i) set / multiset hunks: removed members are in a, added members are in b at the addressed array
